@@ -17,7 +17,10 @@ type Object struct {
 	ID     string   `json:"id"`
 	Text   string   `json:"obj"`
 	Fields []string `json:"fields,omitempty"` // name, value, name, value...
-	HasEx  bool     `json:"ex"`
+	// FJ is the fields object as printed in JSON output mode (keeps the value
+	// KIND visible: "123" vs 123, "true" vs true); empty when not collected.
+	FJ    string `json:"fj,omitempty"`
+	HasEx bool   `json:"ex"`
 }
 
 // HookInfo is a hook or channel.
@@ -144,6 +147,33 @@ func TakeConn(c *respc.Conn, o Opts) (*State, error) {
 	if !o.NoHooks {
 		if _, err := c.Do("OUTPUT", "json"); err != nil {
 			return nil, err
+		}
+		// field kinds: the same SCAN in JSON mode
+		for key, objs := range st.Cols {
+			js, err := c.DoJSON("SCAN", key, "LIMIT", "1000000")
+			if err != nil {
+				return nil, err
+			}
+			var doc struct {
+				OK      bool `json:"ok"`
+				Objects []struct {
+					ID     string          `json:"id"`
+					Fields json.RawMessage `json:"fields"`
+				} `json:"objects"`
+			}
+			if err := json.Unmarshal([]byte(js), &doc); err != nil || !doc.OK {
+				c.Do("OUTPUT", "resp")
+				return nil, fmt.Errorf("SCAN %q in JSON mode: %v %.200s", key, err, js)
+			}
+			fj := map[string]string{}
+			for _, o := range doc.Objects {
+				if len(o.Fields) > 0 {
+					fj[o.ID] = string(o.Fields)
+				}
+			}
+			for i := range objs {
+				objs[i].FJ = fj[objs[i].ID]
+			}
 		}
 		for _, which := range []string{"HOOKS", "CHANS"} {
 			js, err := c.DoJSON(which, "*")
